@@ -25,7 +25,9 @@ REQUIRED = ["mon.color_parse", "mon.style_parse", "mon.get_style", "mon.markup",
 MIN_NONTRIVIAL = {"quick": 5000, "thorough": 200000}
 
 COLOR_TOKENS = ["rgb(", ",", ")", "#", "ff", "0", "255", "256", "color(", "٣", "³", "４", " ", "red", "default",
-                "1,2,3", "-", "g"]
+                "1,2,3", "-", "g",
+                # everything Python's regex class \s matches but int() may not skip, and other blanks
+                "\x1c", "\x1f", "\t", "\n", "\xa0", "\u3000", "\x85", "\u2028", "1,2,", "+1", "1_0"]
 STYLE_TOKENS = ["bold", "not", "on", "link", "red", "#ff0000", "rgb(1,2,3)", "color(1)", " ", "x", "b", "none",
                 "rgb(", ")", "٣", "NOT", "default", ","]
 MARKUP_TOKENS = ["[", "]", "/", "\\", "=", "bold", "red", "link", " ", "a", "[/]", "[b]", "#", ":", "\n", "[/red]"]
